@@ -20,6 +20,7 @@ func checkC07(p *load.Program, r *kit.Report) {
 	r.NotDecided = "that a subscriber's reconstruction equals the reported chain for every tree shape (IntersectHash's result as a value); behaviour when the 10000-slot buffer is full; histories."
 	r.Rule("WRITERS", "sends on subscriber channels (elements of Repository.newHeadersChannels) happen only in ProcessHeader and sendBranchUpdate, close only in Stop, registration only in GetNewHeadersAvailableChannel", 4)
 	r.Rule("MUST-PASS", "on the accepting paths of ProcessHeader exactly one announcement (sendBranchUpdate xor the single-header loop) is made when the header ends on the best branch, and none when it does not; a tip switch is always announced with sendBranchUpdate(new, old) before repo.longest is stored", 5)
+	r.Rule("INTERSECT-SHAPE", "Branch.IntersectHash walks both ancestries carrying, per side, the height and hash at which that side leaves the cursor branch, and where the cursors meet returns the hash of the side with the lower exit height (the last header both chains share)", 3)
 	r.Rule("STREAM-SHAPE", "sendBranchUpdate sends branch.AtHeight(h).Header for h = branch.Find(IntersectHash(branch, previousLongest))+1 … branch.Height(), ascending by 1, each to every channel (the channel loop is nested inside the height loop)", 4)
 
 	chF := field(p, r, "WRITERS", H, "Repository", "newHeadersChannels")
@@ -62,6 +63,7 @@ func checkC07(p *load.Program, r *kit.Report) {
 	}
 
 	checkSendBranchUpdate(p, r, chF)
+	checkIntersect(p, r)
 
 	ph := fn(p, r, "MUST-PASS", H, "Repository.ProcessHeader")
 	if ph == nil {
